@@ -578,7 +578,19 @@ def cmdC17 (st : State) : Except String (State × List String) := do
   let maxGid := mapped.foldl (fun m c => max m (Cm.lookup cm c)) 0
   let n := max numGlyphs (maxGid + 1)
   let coll := if st.ir.autoPseudo then Cm.collisions cm else []
-  let A := Cm.alloc n coll
+  -- explicit pseudo-glyphs: pseudo(unicode(cp) | glyphid(g), input). Their ids (and, when there are any, those of the
+  -- automatic ones) are read from the font's own Unicode-to-pseudo map: which id a pseudo-glyph gets is not fixed by the
+  -- language; that every id is used once, lies between the line-break and the phantom glyph, and stands for the right
+  -- real glyph is checked below.
+  let explicit : List (Nat × Option Nat × Option Nat) := refs.toList.flatten.filterMap fun r =>
+    match r with | .pseudo i c g => some (i, c, g) | _ => none
+  let silf0 ← getSilf st
+  let fontMap : List (Nat × Nat) := silf0.pseudoMap.toList
+  let A0 := Cm.alloc n coll
+  let A : Cm.Alloc := if explicit.isEmpty then A0 else
+    let cps := (A0.pseudos.map (·.1) ++ explicit.map (·.1)).eraseDups
+    let ps := cps.map fun c => (c, ((fontMap.find? (·.1 == c)).map (·.2)).getD 0)
+    { A0 with pseudos := ps, phantom := n + 1 + cps.length, numIds := n + 2 + cps.length }
   let psNames ← P.run (Cm.parsePostNames numGlyphs) (← tbl "post")
   let resolveU := fun (c : Nat) =>
     match A.pseudos.find? (·.1 == c) with
@@ -604,6 +616,9 @@ def cmdC17 (st : State) : Except String (State × List String) := do
         match psNames.toList.idxOf nm with
         | i => if i < psNames.size ∧ i != 0 then gl := gl ++ [i] else missing := missing ++ [s!"postscript({nm})"]
       | .cls c => gl := gl ++ classes.getD c []
+      | .pseudo i _ _ =>
+        let g := resolveU i
+        if g == 0 then missing := missing ++ [s!"pseudo for U+{i}"] else gl := gl ++ [g]
     classes := classes.push gl
   let anyId := classes.size
   classes := classes.push (List.range A.numIds)
@@ -621,7 +636,17 @@ def cmdC17 (st : State) : Except String (State × List String) := do
     if !(x.1 < y.1) then out := out ++ [s!"FAIL pseudo map not strictly sorted at U+{x.1}, U+{y.1}"]
   for (c, g) in A.pseudos do
     let got := (glat.glyphs.getD g default).get silf.attrPseudo
-    if got != (Cm.lookup cm c : Int) then out := out ++ [s!"FAIL pseudo glyph {g} (U+{c}) records actual glyph {got}, cmap gives {Cm.lookup cm c}"]
+    -- the real glyph: for an automatic pseudo-glyph what the cmap gives for its own code point; for an explicit one
+    -- what its definition names - through the cmap, never through another pseudo-glyph
+    let want : Nat := match explicit.find? (·.1 == c) with
+      | some (_, some cp, _) => Cm.lookup cm cp
+      | some (_, none, some gid) => gid
+      | _ => Cm.lookup cm c
+    if got != Int.ofNat want then out := out ++ [s!"FAIL pseudo glyph {g} (U+{c}) records actual glyph {got}, its definition / the cmap gives {want}"]
+  if !explicit.isEmpty then
+    let ids := A.pseudos.map (·.2)
+    if ids.eraseDups.length != ids.length ∨ ids.any (fun g => g ≤ A.lb ∨ g ≥ A.phantom) then
+      out := out ++ [s!"FAIL pseudo-glyph ids {ids} are not distinct ids between the line-break glyph {A.lb} and the phantom glyph {A.phantom}"]
   for g in [0:silf.maxGlyphID + 1] do
     if !(A.pseudos.any (·.2 == g)) then
       let got := (glat.glyphs.getD g default).get silf.attrPseudo
